@@ -5,7 +5,7 @@
     with the contract of [subprocess.call(timeout=t)] given by the explicit function [expires]. *)
 From Coq Require Import List Bool Arith NArith.
 From Exactly Require Import Lib.Harness Model.Outcome Model.Exec Model.World Model.Timeout Spec.C01 Spec.C19
-  Proofs.ExecCorollaries Proofs.TimeoutForce Proofs.TimeoutSim Proofs.TimeoutExpiry Proofs.TimeoutBound.
+  Proofs.ExecCorollaries Proofs.TimeoutForce Proofs.TimeoutSim Proofs.TimeoutExpiry Proofs.TimeoutBound Proofs.TimeoutSpec.
 Import ListNotations.
 
 (** Every process started — by any instruction of any phase, or by the action to check — is handed
@@ -32,8 +32,11 @@ Print Assumptions C19_model_is_the_phased_executor.
     HARD_ERROR of exactly the step that started it ([site_failure c]: that phase, its main step or
     act/execute, that instruction) — unless a cleanup instruction fails afterwards, whose failure is
     then reported (never after before-assert), or, for an expiry in cleanup that follows a failure of
-    before-assert, that earlier failure. *)
-Theorem C19_expiry_is_hard_error_at_that_step : forall tc pre c post,
+    before-assert, that earlier failure.
+    PARTIAL: "is terminated" is the ASSUMED contract of [subprocess.call(timeout=)] ([expires]); that the
+    OS process — and the processes it started — are really gone afterwards is observed by the real runs
+    only (and is false for commands run through the shell under dash: known finding KF-C19-1). *)
+Theorem C19_expiry_is_hard_error_at_that_step_partial : forall tc pre c post,
   fst (texecute tc) = pre ++ TCall c :: post ->
   expires (c_timeout c) (c_dur c) = true -> existsb is_expired_call pre = false ->
   forallb only_cleanup post = true /\
@@ -44,7 +47,7 @@ Theorem C19_expiry_is_hard_error_at_that_step : forall tc pre c post,
      (c_phase c <> Cleanup /\ c_phase c <> BeforeAssert /\ f_phase f = Cleanup) \/
      (c_phase c = Cleanup /\ f_phase f = BeforeAssert)).
 Proof. exact expiry_is_hard_error. Qed.
-Print Assumptions C19_expiry_is_hard_error_at_that_step.
+Print Assumptions C19_expiry_is_hard_error_at_that_step_partial.
 
 (** Cleanup still runs and the sandbox is removed, whatever expires: cleanup is entered exactly once
     (C01, through the simulation); the trace ends with the cleanup phase, which runs the cleanup
@@ -74,8 +77,11 @@ Print Assumptions C19_bounded_steps.
 (** Exactly never waits indefinitely (MODEL time): if the default is finite and no [timeout = none]
     occurs (every limit is at most [T]), every process is handed a finite limit <= T and the total
     time spent waiting for processes is at most T x the number of processes started, which is at most
-    the number of process start sites of the test case — however long the children would run. *)
-Theorem C19_bounded_wait : forall tc T,
+    the number of process start sites of the test case — however long the children would run.
+    PARTIAL: a bound in model time (seconds attributed to [subprocess.call] by [wait_of]); the wall
+    clock of the real program (interpreter start-up, file system, scheduling) is observed by the real
+    runs only (bound checked there: sum of the model's waits + 10 s). *)
+Theorem C19_bounded_wait_partial : forall tc T,
   finite_le T (t_default tc) ->
   (forall p i v, instr_at tc p i = Some (TSet v) -> finite_le T v) ->
   (forall c, In c (calls_of (fst (texecute tc))) -> finite_le T (c_timeout c)) /\
@@ -85,7 +91,18 @@ Proof.
   intros tc T Hd Hs. destruct (bounded_wait tc T Hd Hs) as [H1 H2].
   split; [exact H1|]. split; [exact H2 | apply calls_bounded_by_sites].
 Qed.
-Print Assumptions C19_bounded_wait.
+Print Assumptions C19_bounded_wait_partial.
+
+(** The model's own behaviour satisfies the reference semantics [P_C19] of Spec/C19.v — the flat
+    "walk the instructions in fixed order, expect each process with the timeout in force, stop at the
+    first expiry/failure, then cleanup, sandbox removed, finite default" predicate that the check
+    evaluates on the implementation's OBSERVED behaviour.  Hence whenever the correspondence check
+    finds model = implementation on an input, the property predicate holds for the implementation
+    on that input. *)
+Theorem C19_model_meets_reference_semantics : forall keep tc,
+  (exists s, t_default tc = Some s) -> P_C19 true keep tc (model_obs keep tc) = true.
+Proof. exact model_meets_reference_semantics. Qed.
+Print Assumptions C19_model_meets_reference_semantics.
 
 (** Non-vacuity.  [setup]: timeout = 2; a 3-second child in before-assert (preceded by a process
     that stays within the limit); the limit is lifted in cleanup and a 100-second child is then
